@@ -340,6 +340,38 @@ class ExcFlow:
             return None, None
         return mod, mod.functions.get(rest)
 
+    def single_def(self, fn, e):
+        """A local name with exactly one definition in fn (and not a parameter) stands for the defining expression."""
+        for _ in range(3):
+            if not isinstance(e, ast.Name):
+                break
+            params = {a.arg for a in fn.args.posonlyargs + fn.args.args + fn.args.kwonlyargs}
+            defs = [st for st in ast.walk(fn) if isinstance(st, (ast.Assign, ast.AnnAssign, ast.AugAssign, ast.For, ast.NamedExpr,
+                                                                 ast.comprehension, ast.withitem))
+                    and any(isinstance(n, ast.Name) and n.id == e.id and isinstance(n.ctx, ast.Store) for n in ast.walk(st)
+                            if not isinstance(n, (ast.FunctionDef, ast.Lambda)))]
+            defs = [d for d in defs if not isinstance(d, ast.For) or any(
+                isinstance(n, ast.Name) and n.id == e.id for n in ast.walk(d.target))]
+            if e.id in params or len(defs) != 1 or not isinstance(defs[0], ast.Assign) or len(defs[0].targets) != 1 \
+                    or not isinstance(defs[0].targets[0], ast.Name):
+                break
+            e = defs[0].value
+        return e
+
+    def receivers(self, mod, fn, recv, depth=0):
+        """Inventory regexes a receiver expression can denote (module constant, conditional, single-definition local)."""
+        if isinstance(recv, ast.IfExp):
+            return self.receivers(mod, fn, recv.body, depth) + self.receivers(mod, fn, recv.orelse, depth)
+        if isinstance(recv, ast.Name):
+            r = self.inv.find(f'{mod.name}.{recv.id}')
+            if r is not None:
+                return [r]
+            if fn is not None and depth < 3:
+                d = self.single_def(fn, recv)
+                if d is not recv:
+                    return self.receivers(mod, fn, d, depth + 1)
+        return []
+
     def regex_of_match_var(self, mod, fn, name: str):
         """Inventory regexes whose match object `name` may be in fn (assigned from REGEX.match/search/fullmatch, a loop
         over finditer, or - for a callback parameter - the regexes whose .sub() receives the function)."""
@@ -355,33 +387,29 @@ class ExcFlow:
             if isinstance(v, ast.Call) and call_name(v) in ('cast', 'typing.cast') and len(v.args) == 2:
                 v = v.args[1]
             if isinstance(v, ast.Call) and isinstance(v.func, ast.Attribute) and v.func.attr in ('match', 'search', 'fullmatch', 'finditer'):
-                recv = v.func.value
-                for c in ([recv.body, recv.orelse] if isinstance(recv, ast.IfExp) else [recv]):
-                    if isinstance(c, ast.Name):
-                        r = self.inv.find(f'{mod.name}.{c.id}')
-                        if r is not None:
-                            out.append((r, v.func.attr))
+                for r in self.receivers(mod, fn, v.func.value):
+                    out.append((r, v.func.attr))
         if not out and name in [a.arg for a in fn.args.args]:
-            # callback of REGEX.sub(fn, ...)
-            parent_fn = None
-            q = mod.enclosing_function(fn)
-            if q:
-                parent_fn = mod.functions.get(q)
-            scope = parent_fn if parent_fn is not None else mod.tree
-            for c in ast.walk(scope):
+            # callback of REGEX.sub(fn, ...): every use of the function's name in the module must be such a call
+            uses = [n for n in ast.walk(mod.tree) if isinstance(n, ast.Name) and n.id == fn.name and isinstance(n.ctx, ast.Load)]
+            found = []
+            for u in uses:
+                c = mod.parents.get(u)
                 if isinstance(c, ast.Call) and isinstance(c.func, ast.Attribute) and c.func.attr in ('sub', 'subn') and c.args \
-                        and isinstance(c.args[0], ast.Name) and c.args[0].id == fn.name:
-                    recv = c.func.value
-                    for x in ([recv.body, recv.orelse] if isinstance(recv, ast.IfExp) else [recv]):
-                        if isinstance(x, ast.Name):
-                            r = self.inv.find(f'{mod.name}.{x.id}')
-                            if r is not None:
-                                out.append((r, 'sub'))
+                        and c.args[0] is u:
+                    q = mod.enclosing_function(c)
+                    rs = self.receivers(mod, mod.functions.get(q) if q else None, c.func.value)
+                    if not rs:
+                        return []
+                    found.extend((r, 'sub') for r in rs)
+                else:
+                    return []
+            out = found
         return out
 
     def group_language_ok(self, mod, fn, arg: ast.AST, domain_rx: str, domain_flags: int, max_len: int | None):
         """arg = M.group(g)[slice]: every regex M can come from has group g (after the slice) inside `domain`."""
-        e = arg
+        e = self.single_def(fn, arg)
         drop_first = drop_last = 0
         if isinstance(e, ast.Subscript) and isinstance(e.slice, ast.Slice):
             lo = self.inv.folder.try_ev(mod.name, e.slice.lower, default=0) if e.slice.lower is not None else 0
@@ -389,7 +417,7 @@ class ExcFlow:
             if not isinstance(lo, int) or not isinstance(hi, int) or lo < 0 or hi > 0 or e.slice.step is not None:
                 return None, 'unsupported slice'
             drop_first, drop_last = lo, -hi
-            e = e.value
+            e = self.single_def(fn, e.value)
         if not (isinstance(e, ast.Call) and isinstance(e.func, ast.Attribute) and e.func.attr == 'group'
                 and isinstance(e.func.value, ast.Name) and e.args):
             return None, 'argument is not a match group'
@@ -446,6 +474,12 @@ class ExcFlow:
                 if n.exc is None:
                     continue
                 name = call_name(n.exc) if isinstance(n.exc, ast.Call) else unparse(n.exc)
+                # a factory (`raise self.make_error(...)`) or a variable: the class comes from the inferred type
+                t = self.ctx.types.type_of(mod.name, n.exc)
+                insts = [x for x in self.ctx.types.instance_names(t) if x not in ('None',)] if t is not None else []
+                if len(insts) == 1 and insts[0] not in ('Any', 'callable', 'tuple') and exc_class(name.split('.')[-1]) is None \
+                        and '.' in insts[0]:
+                    name = insts[0]
                 add(name.split('.')[-1], 'raise', n)
             if not isinstance(n, ast.Call):
                 # subscripts of module-level constant dicts with a run-time key
@@ -598,6 +632,7 @@ class ExcFlow:
                     if isinstance(e, ast.Subscript) and isinstance(e.slice, ast.Slice) and e.slice.lower is not None:
                         drop = ev_const(e.slice.lower) or 0
                         e = e.value
+                    e = self.single_def(fn, e)
                     if isinstance(e, ast.Call) and isinstance(e.func, ast.Attribute) and e.func.attr == 'group' and isinstance(e.func.value, ast.Name):
                         g = ev_const(e.args[0])
                         best = 0
